@@ -1,29 +1,10 @@
 import BtcModel.Sighash
+import BtcModel.Ecdsa
 import BtcModel.Prim.Sha256
 import BtcModel.Prim.Secp256k1
 import BtcModel.Driver.Common
 namespace Btc.Driver
 open Btc Btc.Prim
-
-/-- strict DER signature decode (BIP66): r, s -/
-def derDecode (b : Bytes) : Option (Nat × Nat) :=
-  match b with
-  | 0x30 :: len :: 0x02 :: rlen :: rest =>
-    let rl := rlen.toNat
-    if rest.length < rl + 2 then none else
-    let rb := rest.take rl
-    match rest.drop rl with
-    | 0x02 :: slen :: rest2 =>
-      let sl := slen.toNat
-      if rest2.length ≠ sl then none
-      else if len.toNat ≠ b.length - 2 then none
-      else if rl = 0 ∨ sl = 0 then none
-      else if rb.headD 0 ≥ 0x80 ∨ rest2.headD 0 ≥ 0x80 then none
-      else if (rl > 1 ∧ rb.headD 0 = 0 ∧ (rb.drop 1).headD 0 < 0x80) then none
-      else if (sl > 1 ∧ rest2.headD 0 = 0 ∧ (rest2.drop 1).headD 0 < 0x80) then none
-      else some (beVal rb, beVal rest2)
-    | _ => none
-  | _ => none
 
 def handleSig (_D : Dev) : List String → Option String
   | ["sighash", rawhex, i, sc, amount, ht, kind] => do
@@ -50,6 +31,40 @@ def handleSig (_D : Dev) : List String → Option String
       | some q, some (r, s) => toString (ecdsaVerify q (beVal z) r s) ++ (if s ≤ secpN / 2 then " lows" else " highs")
       | none, _ => "badkey"
       | _, none => "badder"
+    pure (two r r)
+  | ["ecdsa_sign", d, zhex, k] => do
+    -- deterministic signature as the library must produce it: nonce = RFC6979(sha256(ascii-hex(z))) as
+    -- fastecdsa derives it when k = 0, low-S normalised, strict DER
+    let d ← d.toNat?
+    let z ← ofHex zhex
+    let k ← k.toNat?
+    let kk := if k = 0 then rfc6979 d (sha256 (toHex z).toUTF8.toList) else k
+    let r := match ecdsaSignK d (beVal z) kk with
+      | none => "none"
+      | some (r, s) =>
+        let s' := if s > secpN / 2 then secpN - s else s
+        s!"{r} {s'} {toHex (derEncode r s')} {kk}"
+    pure (two r r)
+  | ["ecdsa_verify_rs", pub, zhex, r, s] => do
+    let pub ← ofHex pub
+    let z ← ofHex zhex
+    let r ← r.toNat?
+    let s ← s.toNat?
+    let res := match decodePub pub with
+      | some q => toString (ecdsaVerify q (beVal z) r s)
+      | none => "false"
+    pure (two res res)
+  | ["der_dec", h] => do
+    let b ← ofHex h
+    let r := match derDecode b with
+      | some (r, s) => s!"{r} {s}"
+      | none => "none"
+    pure (two r r)
+  | ["pubkey", d] => do
+    let d ← d.toNat?
+    let r := match smulG d with
+      | some p => toHex (encodePubC p) ++ " " ++ toHex (encodePubU p)
+      | none => "none"
     pure (two r r)
   | _ => none
 
